@@ -573,13 +573,23 @@ func MakeForeign(r *rng.R, opts ForeignOpts) *Foreign {
 	var body strings.Builder
 	nblocks := r.Range(1, 7)
 	for i := 0; i < nblocks; i++ {
-		k := r.Intn(10)
+		k := r.Intn(11)
 		if opts.Simple && k >= 7 {
 			k = 0
 		}
 		switch k {
 		default:
 			body.WriteString(w.paragraph(0))
+		case 10:
+			// block-level custom XML markup around paragraphs and tables
+			w.feature("customXml-block")
+			w.block = "customXml-block"
+			body.WriteString("<" + w.el("customXml") + w.at("uri", "urn:x") + w.at("element", "section") + ">" + w.paragraph(0))
+			if r.Bool() {
+				body.WriteString(w.table(0))
+			}
+			body.WriteString(w.paragraph(0) + "</" + w.el("customXml") + ">")
+			w.block = ""
 		case 5, 6:
 			body.WriteString(w.table(0))
 		case 7:
